@@ -89,6 +89,7 @@ func reportWedge(idleFor time.Duration) {
 		w.res.Violations = append(w.res.Violations, violation{Property: w.res.Property, Clause: "wedged",
 			Detail: "the run stopped for good: goroutines wait for a mutex that is never released: " + strings.Join(order, "; ")})
 		w.res.Probes["wedge_waiters"] = len(waiters)
+		w.j.flush()
 		w.res.Hash = w.j.hash()
 		w.res.Events = w.j.n
 		writeResult(w.res)
